@@ -1,6 +1,7 @@
 import SageModel.Proto
 import SageModel.Generated.Consts
 import SageModel.Model.Select
+import SageModel.Model.C10
 
 /-!
 # C18 — model of `sage_core::tmt` reporter-ion quantification (core Lean only)
@@ -129,6 +130,111 @@ def minDeisotopeMz [LT α] [DecidableLT α] [Mul α] (labels : List α) (level :
   | _ => none
 
 end generic
+
+/-! ### reference reporter masses (independent of tmt.rs)
+
+The tables of the model are regenerated from tmt.rs, so a wrong or swapped entry in the source would be followed
+silently. These are the published TMT / TMTpro reporter-ion m/z values (Thermo Fisher product data, 6 decimals),
+written down by hand; `tablesMatchReference` demands every source entry within 10⁻⁵ Th (f32 rounding of a 6-decimal
+literal is < 0.8·10⁻⁵ at 135 Th) of its reference, position by position. -/
+
+def referenceTMT18 : List Rat :=
+  [126127726, 127124761, 127131081, 128128116, 128134436, 129131471, 129137790, 130134825, 130141145,
+   131138180, 131144500, 132141535, 132147855, 133144890, 133151210, 134148245, 134154565, 135151600].map
+    (fun (n : Nat) => (n : Rat) / 1000000)
+
+def referenceTMT6 : List Rat :=
+  [126127726, 127124761, 128134436, 129131471, 130141145, 131138180].map (fun (n : Nat) => (n : Rat) / 1000000)
+
+def matchesReference (gen ref : List Rat) : Bool :=
+  gen.length == ref.length &&
+  (gen.zip ref).all (fun gr => decide (gr.1 - gr.2 ≤ 1 / 100000) && decide (gr.2 - gr.1 ≤ 1 / 100000))
+
+def tablesMatchReference (T : Tables Rat) : Bool :=
+  matchesReference T.tmt6 referenceTMT6 && matchesReference T.tmt11 (referenceTMT18.take 11) &&
+  matchesReference T.tmt18 referenceTMT18
+
+/-! ### the runner's path: mzML reader fields → `read_processed_spectra` → `complete_features`
+
+Rust (crates/sage-cli/src/runner.rs, crates/sage-cloudpath/src/mzml.rs):
+
+```
+let sn = tmt_settings.sn.then_some(tmt_settings.level);                       // read_processed_spectra
+let min_deisotope_mz = … (see `minDeisotopeMz`);
+let sp = SpectrumProcessor::new(max_peaks, deisotope, min_deisotope_mz.unwrap_or(0.0));
+read_spectra(path, file_id = chunk_idx * batch_size + idx, sn, …)              // mzML reader, per spectrum:
+    </precursor>: if precursor.mz != 0.0 { spectrum.precursors.push(precursor) }
+    </spectrum>:  (true, Some(level)) if level == spectrum.ms_level && !noise_array.is_empty()
+                      => intensity.iter_mut().zip(noise_array.iter()).for_each(|(int, noise)| *int /= noise)
+ms_level == 1 → `ms1`, everything else → `msn`;  msn.map(|s| sp.process(s))
+quantify(&msn_spectra, isobaric, Tolerance::Ppm(-20.0, 20.0), level)           // complete_features
+```
+
+The XML layer itself (events, escaping, base64, cvParams) is C16's model; here a spectrum is the record of the
+fields the harness renders into the mzML text. -/
+
+/-- a `<precursor>` element: selected-ion m/z, charge, `spectrumRef` -/
+structure RawPrec (α : Type) where
+  mz : α
+  charge : Option Nat
+  sref : Option String
+
+/-- a `<spectrum>` element as rendered by the harness (centroid, 32-bit arrays) -/
+structure RawSpec (α : Type) where
+  level : Nat
+  id : String
+  inj : α
+  precs : List (RawPrec α)
+  peaks : List (α × α)
+  noise : List α
+
+section runner
+variable {α : Type}
+
+/-- `intensity.iter_mut().zip(noise_array.iter()).for_each(|(int, noise)| *int /= noise)` -/
+def applyNoise [Div α] : List (α × α) → List α → List (α × α)
+  | (m, i) :: ps, n :: ns => (m, i / n) :: applyNoise ps ns
+  | ps, _ => ps
+
+/-- `precursor.mz != 0.0` on non-NaN values -/
+def nonZero [LT α] [DecidableLT α] [OfNat α 0] (x : α) : Bool := decide (x < 0) || decide ((0 : α) < x)
+
+/-- what the reader hands on for one spectrum: S/N division when `sn = Some(ms_level)` and a noise array is
+    present; precursors whose selected-ion m/z is 0 are not pushed -/
+def readSpec [LT α] [DecidableLT α] [OfNat α 0] [Div α] (sn : Option Nat) (s : RawSpec α) : RawSpec α :=
+  { s with
+    peaks := if sn == some s.level && !s.noise.isEmpty then applyNoise s.peaks s.noise else s.peaks
+    precs := s.precs.filter (fun p => nonZero p.mz) }
+
+/-- `sp.process(s)` then the fields `quantify` reads; `none` = panic (cannot happen: centroid data) -/
+def processSpec [Sage.C10.Num α] (cfg : Sage.C10.Cfg α) (fileId : Nat) (s : RawSpec α) : Option (Spectrum α) :=
+  match Sage.C10.process cfg
+      { level := s.level, centroid := true, charge := (s.precs.head?).bind (·.charge), peaks := s.peaks } with
+  | none => none
+  | some (ps, _) => some
+      { level := s.level, id := s.id, fileId := fileId, injTime := s.inj,
+        precursors := s.precs.map (·.sref), peaks := ps.map fun p => ⟨p.mass, p.intensity⟩ }
+
+/-- `file_id` of the `idx`-th file overall is `chunk_idx * batch_size + idx_in_chunk` = `idx` -/
+def indexed {β : Type} : Nat → List β → List (Nat × β)
+  | _, [] => []
+  | i, x :: xs => (i, x) :: indexed (i + 1) xs
+
+/-- `Runner::batch_files(..).quant` for a TMT search (rows in file/spectrum order) -/
+def runnerQuant [Sage.C10.Num α] [LT α] [DecidableLT α] [LE α] [DecidableLE α] [Add α] [Mul α] [Div α] [Neg α]
+    [OfNat α 1000000] [OfNat α 100] [OfNat α 0]
+    (proton : α) (labels : List α) (tol : Tol α) (factor : α)
+    (level : Nat) (sn deisotope : Bool) (maxPeaks : Nat) (files : List (List (RawSpec α))) : Option (List (Row α)) :=
+  let snOpt : Option Nat := if sn then some level else none
+  let cfg : Sage.C10.Cfg α :=
+    { takeTopN := maxPeaks, deisotope := deisotope, minDeisoMz := (minDeisotopeMz labels level factor).getD 0 }
+  let msn : List (Nat × RawSpec α) :=
+    (indexed 0 files).flatMap fun (fi, f) => ((f.map (readSpec snOpt)).filter (fun s => s.level != 1)).map (fi, ·)
+  match msn.mapM (fun (fi, s) => processSpec cfg fi s) with
+  | none => none
+  | some processed => some (quantify proton processed labels tol level)
+
+end runner
 
 /-! ### specification: linear scan in m/z space, exact rationals -/
 
